@@ -217,6 +217,7 @@ func uploadBundle(ctx context.Context, bundle *Bundle, bundleEntriesPerFile uint
 	if err != nil {
 		return err
 	}
+	files = uniqueKeys(files)
 
 	if len(files) == 0 {
 		bundle.l.Warn("Uploading bundle with 0 files")
@@ -342,6 +343,21 @@ func uploadBundle(ctx context.Context, bundle *Bundle, bundleEntriesPerFile uint
 		zap.String("BundleID", bundle.BundleID),
 	)
 	return nil
+}
+
+// uniqueKeys removes repeated keys, keeping the order of first occurrences:
+// a file listed several times is part of the bundle once.
+func uniqueKeys(keys []string) []string {
+	seen := make(map[string]struct{}, len(keys))
+	unique := make([]string, 0, len(keys))
+	for _, key := range keys {
+		if _, ok := seen[key]; ok {
+			continue
+		}
+		seen[key] = struct{}{}
+		unique = append(unique, key)
+	}
+	return unique
 }
 
 func validateBundle(bundle *Bundle) bool {
